@@ -996,6 +996,7 @@ type searchResult struct {
 	RevalFail   int            `json:"paths_reexecuted_mismatch"`
 	Checks      map[string]int `json:"checks"`
 	WallS       float64        `json:"wall_s"`
+	ShareS      float64        `json:"time_share_s"`
 	samples     []any
 }
 
@@ -1050,7 +1051,7 @@ func parallel(n, workers int, f func(i int)) {
 
 func (s *searcher) run(workers int, deadline time.Time) *searchResult {
 	t0 := time.Now()
-	res := &searchResult{Cfg: s.cfg.String(), Checks: map[string]int{}}
+	res := &searchResult{Cfg: s.cfg.String(), Checks: map[string]int{}, ShareS: time.Until(deadline).Seconds()}
 	root := s.root()
 	seen := map[string]bool{root.key(s.cfg.Type): true}
 	repSeen := map[string]bool{}
@@ -1198,31 +1199,34 @@ func (s *searcher) run(workers int, deadline time.Time) *searchResult {
 	return res
 }
 
+// plan lists the searches of a tier, cheapest first: every search gets an equal share of the time
+// that is left, so the expensive ones at the end inherit whatever the cheap ones did not use.
 func plan(thorough bool) []config {
-	var out []config
-	types := []string{"gcounter", "aworset", "lww"}
 	if !thorough {
-		for _, t := range types {
-			d3 := 5
-			if t == "lww" {
-				d3 = 4 // the time order of updates multiplies the LWW state space; depth 5 and beyond run in the thorough tier
-			}
-			out = append(out, config{Type: t, Universe: 0, Replicas: 3, Depth: d3})
-			out = append(out, config{Type: t, Universe: 1, Replicas: 2, Depth: 5})
+		return []config{
+			{Type: "gcounter", Universe: 1, Replicas: 2, Depth: 5},
+			{Type: "gcounter", Universe: 0, Replicas: 3, Depth: 5},
+			{Type: "aworset", Universe: 1, Replicas: 2, Depth: 5},
+			{Type: "lww", Universe: 1, Replicas: 2, Depth: 5},
+			// the time order of updates multiplies the LWW state space: 3 replicas at depth 5 and beyond run in the thorough tier
+			{Type: "lww", Universe: 0, Replicas: 3, Depth: 4},
+			{Type: "aworset", Universe: 0, Replicas: 3, Depth: 5},
 		}
-		return out
 	}
-	for _, t := range types {
-		d3, d2 := 6, 7
-		if t == "gcounter" {
-			d3, d2 = 7, 10
-		}
-		out = append(out, config{Type: t, Universe: 0, Replicas: 3, Depth: d3})
-		out = append(out, config{Type: t, Universe: 1, Replicas: 3, Depth: 5})
-		out = append(out, config{Type: t, Universe: 2, Replicas: 3, Depth: 5})
-		out = append(out, config{Type: t, Universe: 1, Replicas: 2, Depth: d2})
+	return []config{
+		{Type: "gcounter", Universe: 1, Replicas: 3, Depth: 5},
+		{Type: "gcounter", Universe: 2, Replicas: 3, Depth: 5},
+		{Type: "gcounter", Universe: 1, Replicas: 2, Depth: 10},
+		{Type: "gcounter", Universe: 0, Replicas: 3, Depth: 7},
+		{Type: "aworset", Universe: 1, Replicas: 3, Depth: 5},
+		{Type: "aworset", Universe: 2, Replicas: 3, Depth: 5},
+		{Type: "lww", Universe: 1, Replicas: 3, Depth: 5},
+		{Type: "lww", Universe: 2, Replicas: 3, Depth: 5},
+		{Type: "lww", Universe: 1, Replicas: 2, Depth: 6},
+		{Type: "aworset", Universe: 1, Replicas: 2, Depth: 7},
+		{Type: "aworset", Universe: 0, Replicas: 3, Depth: 6},
+		{Type: "lww", Universe: 0, Replicas: 3, Depth: 6},
 	}
-	return out
 }
 
 func TestCheck(t *testing.T) {
